@@ -30,6 +30,7 @@ RULE = (
     "distinct = (target kind and variant, set of (method, hit/miss) pairs seen, set of state-changing ops); "
     "non-trivial = at least one cache hit and one eviction/miss after a hit"
 )
+RULE += " Sphere2Sphere targets may have a partner moved explicitly in time (same q, different t) and a second contact on the same free sphere (identical local coordinates); caches that live on a class instead of the instance are emptied before every evaluation of the twin."
 COMPONENTS = {
     "real": [
         "cardillo.discrete.RigidBody",
@@ -79,6 +80,20 @@ def _walk(obj, seen, depth=3):
         mod = type(val).__module__ or ""
         if mod.startswith("cardillo") and not name.startswith("__"):
             yield from _walk(val, seen, depth - 1)
+
+
+def clear_class_level_caches(objs):
+    """A cache that is shared by all instances of a class (class attribute) cannot be replaced on the twin only;
+    it is emptied before each evaluation of the twin instead, so that the twin still computes afresh."""
+    from cachetools import Cache
+
+    seen = set()
+    for root in objs:
+        for o in _walk(root, seen):
+            for klass in type(o).__mro__:
+                for name, val in list(vars(klass).items()):
+                    if isinstance(val, Cache):
+                        val.clear()
 
 
 def instrument(objs, memo, stats):
@@ -142,6 +157,9 @@ def _gen_s2s(rng):
         # kinematics then depend on t at fixed q
         kinds[int(rng.integers(2))] = "frame"
         frame = {"c": rng.uniform(-0.5, 0.5, 3).tolist(), "amp": (rng.normal(size=3) * 0.3 * (r1 + r2)).tolist(), "w": float(rng.uniform(1, 4))}
+        if rng.random() < 0.6:
+            # a second moved obstacle against the same free sphere: two contacts with identical local coordinates
+            frame["second"] = {"dir": rng.normal(size=3).tolist(), "amp": (rng.normal(size=3) * 0.2 * (r1 + r2)).tolist(), "w": float(rng.uniform(1, 4)), "radius": float(rng.uniform(0.1, 0.4))}
 
     def state():
         parts, uparts = [], []
@@ -155,6 +173,11 @@ def _gen_s2s(rng):
             reach = float(np.linalg.norm(frame["amp"]))
             cb = cf + d * ((r1 + r2) * float(rng.uniform(1.05, 2.0)) + reach)
             c1, c2 = (cf, cb) if kinds[0] == "frame" else (cb, cf)
+            if frame.get("second") and "centre" not in frame["second"]:
+                # placed once, on the far side of the first pool state of the free sphere, clear of everything
+                d2 = np.array(frame["second"]["dir"])
+                d2 = d2 / np.linalg.norm(d2)
+                frame["second"]["centre"] = (cb + d2 * (3.0 + float(np.linalg.norm(frame["second"]["amp"])))).tolist()
         for k, c in zip(kinds, (c1, c2)):
             if k == "frame":
                 continue
@@ -368,18 +391,36 @@ def _build_s2s(plan, q0, u0):
             iu += 3
         bodies.append(b)
     c = Sphere2Sphere(bodies[0], bodies[1], plan["radii"][0], plan["radii"][1], mu=plan["mu"], e_N=0.5, e_F=0.0, name="c")
-    system.add(*bodies, c)
+    cs = [c]
+    extra = []
+    sec = (plan.get("frame") or {}).get("second")
+    if sec and "centre" in sec:
+        c0, amp, w = np.array(sec["centre"]), np.array(sec["amp"]), sec["w"]
+        f2 = Frame(
+            r_OP=lambda t, c0=c0, amp=amp, w=w: c0 + amp * np.cos(w * t),
+            r_OP_t=lambda t, amp=amp, w=w: -amp * w * np.sin(w * t),
+            r_OP_tt=lambda t, amp=amp, w=w: -amp * w * w * np.cos(w * t),
+            name="obstacle2",
+        )
+        free = bodies[1] if plan["kinds"][0] == "frame" else bodies[0]
+        rfree = plan["radii"][1] if plan["kinds"][0] == "frame" else plan["radii"][0]
+        # same partner order as the first contact, so that both contacts see the same local coordinates
+        c2 = Sphere2Sphere(f2, free, sec["radius"], rfree, mu=plan["mu"], e_N=0.5, e_F=0.0, name="c2") if plan["kinds"][0] == "frame" else Sphere2Sphere(free, f2, rfree, sec["radius"], mu=plan["mu"], e_N=0.5, e_F=0.0, name="c2")
+        cs.append(c2)
+        extra = [f2]
+    system.add(*bodies, *extra, *cs)
     with contextlib.redirect_stdout(io.StringIO()):
         system.assemble()
-    return system, bodies, c
+    return system, bodies, cs
 
 
 class S2STarget:
     def __init__(self, plan):
         self.plan = plan
         self.pool = plan["pool"]
-        self.system, self.bodies, self.c = _build_s2s(plan, self.pool["q"][0], self.pool["u"][0])
-        self.roots = [self.c] + self.bodies
+        self.system, self.bodies, self.cs = _build_s2s(plan, self.pool["q"][0], self.pool["u"][0])
+        self.c = self.cs[0]
+        self.roots = list(self.cs) + self.bodies
 
     def args(self, a):
         P = self.pool
@@ -395,7 +436,7 @@ class S2STarget:
 
     def eval(self, m, a, style):
         t, q, u, la, laN, ud = self.args(a)
-        c = self.c
+        c = self.cs[a[3] % len(self.cs)]  # with two contacts on the same free sphere: alternate between them
         arrs = [q, u, la, ud]
         if m in ("n", "n_q1_q2", "t1t2", "t1t2_q1_q2", "W_F", "W_N", "g_N"):
             r = getattr(c, m)(t, q)
@@ -410,7 +451,7 @@ class S2STarget:
         elif m == "sys_gamma_F":
             r = self.system.gamma_F(t, q, u)  # contact DOFs == system DOFs here
         elif m == "sys_W_F":
-            r = self.system.W_F(t, q).toarray()
+            r = np.hstack([self.system.W_F(t, q).toarray(), self.system.W_N(t, q).toarray()])
         else:
             raise ValueError(m)
         return r, arrs
@@ -418,7 +459,8 @@ class S2STarget:
     def state_op(self, op, a):
         t, q, u, _, _, _ = self.args(a)
         if op == "step_callback":
-            self.c.step_callback(t, q, u)
+            for c in self.cs:
+                c.step_callback(t, q, u)
         elif op == "sys_step_callback":
             self.system.step_callback(t, q, u)
         elif op == "reassemble":
@@ -573,6 +615,7 @@ def execute(plan, out, log):
             continue
         h0, m0 = stats["hit"], stats["miss"]
         r1, arrs1 = real.eval(op["m"], op["a"], op["style"])
+        clear_class_level_caches(twin.roots)  # memoisation that does not live on the instance cannot be switched off per twin
         r2, arrs2 = twin.eval(op["m"], op["a"], op["style"])
         hit = stats["hit"] > h0
         if hit:
@@ -611,6 +654,8 @@ def execute(plan, out, log):
         variant += ":" + "+".join(plan["kinds"])
         if "frame" in plan["kinds"]:
             out["probes"]["s2s_time_dependent_partner"] += 1
+        if len(real.cs) > 1:
+            out["probes"]["s2s_two_contacts_same_coordinates"] += 1
     if plan["target"] == "rod":
         s = plan["spec"]
         variant += f":{s['interp']}:{'mixed' if s['mixed'] else 'db'}:{s['constraints']}:p{s['degree']}"
